@@ -1,6 +1,7 @@
 package rules
 
 import (
+	"strings"
 	ssa "xvc/xssa"
 
 	"xvc/q"
@@ -18,6 +19,8 @@ func c05(c *q.Ctx) {
 	poolMapOwner(c)
 	poolRollback(c)
 	cacheFillerPerTx(c)
+	poolRecordAsPublished(c)
+	feeInverse(c)
 	reloadTotalRules(c)
 	poolReload(c)
 	metaCopiesDistinct(c)
@@ -177,4 +180,40 @@ func cacheFillerPerTx(c *q.Ctx) {
 		}
 	}
 	c.Floor("K11", st+"(*State).procTodoBlkForWalk", "doTxInternal calls with a cache filler", n, 3)
+}
+
+// poolRecordAsPublished (C05, C06): the pool record that is persisted is the transaction object as it is published in
+// memory: no field of it is set after it was serialised (a receive time stamped after the Marshal is in the pool of
+// the running node and missing in the pool a reopened node loads - which then expires the transaction at once).
+func poolRecordAsPublished(c *q.Ctx) {
+	ds := c.Fn("bcs/ledger/xledger/state::(*State).doTxSync")
+	if ds == nil {
+		return
+	}
+	marshal := q.Target{Name: "the transaction is serialised (proto.Marshal)", Instr: func(i ssa.Instruction) bool {
+		ci, ok := i.(ssa.CallInstruction)
+		return ok && q.Callee(ci.Common()).Match("proto::Marshal") && len(ci.Common().Args) == 1 && q.Canon(ci.Common().Args[0]) == "p1"
+	}}
+	field := q.Target{Name: "a field of the transaction is set", Instr: func(i ssa.Instruction) bool {
+		st, ok := i.(*ssa.Store)
+		if !ok {
+			return false
+		}
+		fa, ok := st.Addr.(*ssa.FieldAddr)
+		return ok && strings.HasPrefix(q.TypeField(fa), "Transaction.") && q.Canon(fa.X) == "p1"
+	}}
+	nField := 0
+	for _, b := range ds.Blocks {
+		for _, ins := range b.Instrs {
+			if field.Instr(ins) {
+				nField++
+			}
+		}
+	}
+	if nField == 0 { // today: the receive time is stamped by the caller, before doTxSync runs at all
+		c.OK("K2", "bcs/ledger/xledger/state::(*State).doTxSync", "no field of the transaction is set after it was serialised", "-", "no field of the transaction is set in this function")
+		c.ArgIs(ds, "proto::Marshal", 0, "p1", 1, "the record is the transaction itself")
+		return
+	}
+	c.NeverAfter(ds, marshal, field, "what is persisted is the transaction as the pool publishes it")
 }
